@@ -137,8 +137,71 @@ def kani_float_lemmas():
     return out, "cargo kani (in build/kanifl: kanifl/lib.rs.tmpl with the scanner's comparison `%s` substituted; %s s%s)" % (expr, res.get("wall_s"), "" if not os.path.exists(cf) else ", result cached by harness hash")
 
 
+def kani_hoisted_ds():
+    """C12: bounded validation (slice length <= 4, all byte values) of the assumed specs of the closure chains hoisted from digit_string.rs.
+    Returns a bounded-stand-in record (never an obligation). Cached by the hash of the generated harness."""
+    import hashlib, shutil
+    unit = gen.load_unit("ds")
+    pins = {}
+    for src in unit["sources"]:
+        for h in src.get("hoists", []):
+            pins[h["name"]] = h.get("pin", "").strip()
+        for k, c in src.get("contracts", {}).items():
+            if k == "all_zeros":
+                pins["all_zeros"] = c.get("pin_body", "").strip()
+    need = ("all_zeros", "vx_all_zero_bytes", "vx_count_leading_zero_bytes")
+    rec = {"search": "kani-hoisted-ds", "bound": "every slice of length <= 4 over all byte values (unwind 6): the verbatim closure chains all_zeros / is_free / shift's "
+           "leading-zero count equal the executable restatement of their assumed specs (zeros, lead_zeros)", "cases": None, "found": False}
+    if any(not pins.get(k) for k in need):
+        rec["note"] = "pinned texts not found in the overlay: not run"
+        return rec
+    text = open(os.path.join(VERIF, "kanihoist", "lib.rs.tmpl"), encoding="utf-8").read()
+    text = text.replace("@ALLZ@", pins["all_zeros"]).replace("@AZB@", pins["vx_all_zero_bytes"]).replace("@CLZ@", pins["vx_count_leading_zero_bytes"])
+    key = hashlib.sha256(text.encode()).hexdigest()
+    cdir = os.path.join(VERIF, "build", "cache")
+    os.makedirs(cdir, exist_ok=True)
+    cf = os.path.join(cdir, "kanihoist_" + key + ".json")
+    if os.path.exists(cf) and not os.environ.get("VERIF_NOCACHE"):
+        res = json.load(open(cf))
+    else:
+        wd = os.path.join(VERIF, "build", "kanihoist")
+        shutil.rmtree(wd, ignore_errors=True)
+        os.makedirs(os.path.join(wd, "src"))
+        shutil.copy(os.path.join(VERIF, "kanihoist", "Cargo.toml"), os.path.join(wd, "Cargo.toml"))
+        open(os.path.join(wd, "src", "lib.rs"), "w", encoding="utf-8").write(text)
+        env = dict(os.environ, CARGO_NET_OFFLINE="true", CARGO_TARGET_DIR=os.path.join(VERIF, "build", "kanifl-target"))
+        t0 = time.time()
+        try:
+            p = subprocess.run(["cargo", "kani"], cwd=wd, env=env, capture_output=True, text=True, timeout=900)
+            outp = p.stdout + "\n" + p.stderr
+        except Exception as e:
+            outp = "kani could not be run: %r" % (e,)
+        m = re.search(r"VERIFICATION:- (\w+)", outp)
+        res = {"wall_s": round(time.time() - t0, 1), "verdict": m.group(1) if m else None, "covers": len(re.findall(r"Status: SATISFIED", outp)), "tail": outp[-600:]}
+        if m:
+            json.dump(res, open(cf, "w"))
+    rec["cases"] = "symbolic: 4 bytes x lengths 0..4"
+    rec["kani_verdict"] = res.get("verdict")
+    rec["covers_satisfied"] = res.get("covers")
+    rec["wall_s"] = res.get("wall_s")
+    rec["found"] = res.get("verdict") == "FAILED"
+    if res.get("verdict") != "SUCCESSFUL":
+        rec["note"] = res.get("tail", "")[-300:]
+    return rec
+
+
 def side_checks(pid, tier, seed):
     out = {"obligations": [], "cmd": "", "trusted": [], "engine": "", "bounded": []}
+    if pid == "C12" and (tier == "thorough" or os.environ.get("VERIF_KANI_HOISTED") == "1"):
+        rec = kani_hoisted_ds()
+        out["bounded"].append(rec)
+        if rec.get("found"):
+            # the assumed spec of a hoisted helper is contradicted on a small slice: every proof that uses it is void -> undecided, never an alarm
+            out["obligations"].append({"id": "kani::hoisted::ds-assumed-specs", "fn": "all_zeros / vx_all_zero_bytes / vx_count_leading_zero_bytes", "kind": "assumption-check",
+                                       "props": ["C12"], "unit": "kanihoist", "src": "kanihoist/lib.rs.tmpl", "text": "assumed specs of the hoisted closure chains hold on slices of length <= 4",
+                                       "status": "undecided", "diag": [{"msg": "Kani contradicts an assumed spec: " + str(rec.get("note", ""))[-200:]}]})
+        out["cmd"] = "cargo kani (in build/kanihoist; bounded: slice length <= 4)"
+        return out
     if pid == "C09":
         obl, cmd = kani_float_lemmas()
         out["obligations"] = obl
